@@ -7,6 +7,9 @@ type ID int
 const (
 	T_WHITESPACE ID = iota + 57346
 	T_STRING
+	T_COMMENT
+	T_DOC_COMMENT
+	T_INLINE_HTML
 )
 
 func (i ID) String() string { return "T" }
